@@ -562,4 +562,21 @@ example : ((highestDensityRegion [1, 2, 6, 3, 1] [1/2, 4/5] false 3).toOption)
     = some [([(2, 4), (0, 0), (0, 0)], 5/4), ([(1, 4), (0, 0), (0, 0)], 1/5)] := by decide +kernel
 example : hdrLevels [1, 2, 6, 3, 1] = [1, 2, 3] := by decide +kernel
 
+/-! ## translation invariance (epoch-scale timestamps, ≈ 1.7e18 ns) -/
+
+/-- **find_peaks_translation_invariant.** Moving every hit time by `T` moves every peak time by `T` and changes
+nothing else (errors included) — the model computes over unbounded `Int`, like the exact int64 arithmetic of the
+code; the harness re-runs its cases shifted by `T0 = 1_700_000_000_000_000_137` (component `epoch/*`). -/
+theorem find_peaks_translation_invariant (P : FPParams) (toPe : List Rat) (nCh nS : Nat) (T : Int) (hits : List Hit) :
+    findPeaks P toPe nCh nS (hits.map (Hit.shift T)) = (findPeaks P toPe nCh nS hits).map (List.map (Peak.shift T)) :=
+  findPeaks_shift P toPe nCh nS T hits
+
+/-- **merge_peaks_translation_invariant.** Moving every peak time by `T` moves the merged peaks and their collected
+end times by `T` and changes nothing else. -/
+theorem merge_peaks_translation_invariant (nCh nS : Nat) (T : Int) (peaks : List Peak) (merged : Option (List Bool))
+    (ranges : List (Nat × Nat)) :
+    mergePeaks nCh nS (peaks.map (Peak.shift T)) merged ranges
+      = (mergePeaks nCh nS peaks merged ranges).map (List.map (fun qe => (qe.1.shift T, qe.2 + T))) :=
+  mergePeaks_shift nCh nS T peaks merged ranges
+
 end Strax.C19
